@@ -292,6 +292,9 @@ def generate(seed, prof):
     if prog["mode"] == "concurrent" and r.random() < prof.get("sock_buf_p", 0.12):
         # slow reader behind a small socket buffer: the server's drain() waits (up to its 2 s push timeout)
         prog["knobs"]["sock_buf"] = r.choice((128, 512, 2048))
+    if r.random() < prof.get("cpu_p", 0.15):
+        prog["buggify"]["cpu_p"] = r.choice((0.05, 0.3))
+        prog["buggify"]["cpu_max"] = r.choice((0.02, 0.08, 0.3))
     if r.random() < prof.get("gc_p", 0.3):
         prog["buggify"]["gc_every"] = r.choice((50, 200, 1000))
     if r.random() < prof.get("stall_p", 0.0):
